@@ -1178,17 +1178,41 @@ class C10Oracle(Oracle):
     # no hand-over on refusals: after enable_features(recompute=False) stored values may be stale
     # by the caller's choice, and the roll-back of a refused edit legitimately re-measures them
     owns_atomicity = True
-    extra_ops = {"enable_norecompute": 1.5}
+    extra_ops = {"enable_norecompute": 1.5, "core_toggle": 1.0}
+
+    def _core_ids(self):
+        w = self.w
+        return [k for k in ([w.tkey] + ([w.lkey] if w.lkey else [])) if k in self.managed]
 
     def gen_extra(self, kind, rnd):
         from .world import _gen_toggle
 
+        if kind == "core_toggle":
+            # the track / lineage id features switched off one at a time in the middle of a
+            # session (edits go on; the ids are then stale by the caller's choice), and on again
+            core = self._core_ids()
+            off = [k for k in core if k not in self.model]
+            if off:
+                return {"op": "core_toggle", "mode": "enable", "keys": off}
+            if not core:
+                return None
+            r = rnd.random()
+            keys = [core[0]] if r < 0.5 or len(core) == 1 else ([core[1]] if r < 0.75 else list(core))
+            return {"op": "core_toggle", "mode": "disable", "keys": keys}
         op = _gen_toggle(self.w, rnd, "enable", False)
         if not op["keys"]:
             return None
         return {"op": "enable_norecompute", "keys": op["keys"]}
 
     def apply_extra(self, op, out):
+        if op["op"] == "core_toggle":
+            with warnings.catch_warnings():
+                warnings.simplefilter("ignore")
+                if op["mode"] == "disable":
+                    self.w.tracks.disable_features(list(op["keys"]))
+                else:
+                    self.w.tracks.enable_features(list(op["keys"]))
+            return
         # "assume the values already exist": registers and activates, computes nothing; the values
         # of keys that were off may be stale until the next enable *with* recomputation
         with warnings.catch_warnings():
@@ -1248,6 +1272,31 @@ class C10Oracle(Oracle):
         kind = op["op"]
         tr = self.w.tracks
         where = kind if out.ok else f"refused_{kind}"
+        if kind == "core_toggle":
+            if not out.ok:
+                self.rep(f"core_toggle_raised:{op['mode']}", f"{op['mode']}_features({op['keys']}) raised {out.exc!r}")
+                return
+            if op["mode"] == "disable":
+                self.model -= set(op["keys"])
+                self.col.event("core_disabled_mid_session:" + ("both" if len(op["keys"]) > 1 else
+                                                               ("tracklet" if op["keys"][0] == self.w.tkey else "lineage")))
+                self._check_registry("disable_core_mid_session")
+                return
+            self.model |= set(op["keys"])
+            if not self._check_registry("enable_core_mid_session"):
+                return
+            st = C.canon(tr)
+            for k in op["keys"]:
+                classes = refs.tracklets(st["nodes"], st["edges"]) if k == self.w.tkey else refs.lineages(st["nodes"], st["edges"])
+                mm = refs.partition_mismatch({n: a.get(k) for n, a in st["nodes"].items()}, classes)
+                if mm:
+                    self.rep(f"core_recompute_mid_session:{'tracklet' if k == self.w.tkey else 'lineage'}",
+                             f"after re-enabling {k} (recomputation) in the middle of a session: {mm}")
+                    return
+            self.col.event("core_reenabled_mid_session")
+            for k in op["keys"]:
+                self.since[k] = 0
+            return
         if kind in ("enable", "disable"):
             unknown = [k for k in op["keys"] if k not in self.managed]
             if unknown:
@@ -1298,6 +1347,14 @@ class C10Oracle(Oracle):
                     return
         if not self._check_registry(where):
             return
+        if not out.ok and any(k not in self.model for k in self._core_ids()):
+            # While the track / lineage ids are switched off the id lookups are not maintained, so
+            # user actions can fail half-way on them (KeyError from a stale lookup); what their
+            # roll-back re-measures is outside the property. Values are asserted again after the
+            # next enable with recomputation.
+            self.unverified |= {k for k in self.model if k not in self._core_ids()}
+            self.col.event("refusal_while_core_ids_off")
+            return
         # enabled features keep tracking the state
         if not self._values_ok(sorted(self.model), where):
             return
@@ -1333,6 +1390,13 @@ class C10Oracle(Oracle):
         if tr.segmentation is not None and isinstance(w.pos_key, str):
             core += [w.pos_key, "area"]
         core = [k for k in core if k in self.managed]
+        off = [k for k in self._core_ids() if k not in self.model]
+        if off:
+            ok, r = _safe(lambda: tr.enable_features(off))
+            if not ok:
+                self.rep("core_toggle_raised", f"enable_features({off!r}) raised {r!r}")
+                return
+            self.model |= set(off)
         for k in core:
             ok, r = _safe(lambda k=k: tr.disable_features([k]))
             self.col.evaluation()
